@@ -6,8 +6,10 @@ import (
 	"net"
 	"path/filepath"
 	"sort"
+	"strconv"
 	"strings"
 	"sync"
+	"sync/atomic"
 	"testing"
 	"time"
 
@@ -144,6 +146,81 @@ func TestRegistryNaming(t *testing.T) {
 			mu.Unlock()
 		}()
 	}
+	// restart: Start, a poll, Stop, the supplier's value changes, Start again: the backend metric must follow
+	type restart struct {
+		ctor          string
+		first, second float64
+	}
+	var restarts []restart
+	var val atomic.Value
+	val.Store(7.0)
+	supplier := func() (float64, bool) { return val.Load().(float64), true }
+	waitFor := func(read func() float64, want float64) float64 {
+		got := read()
+		for dl := time.Now().Add(1500 * time.Millisecond); time.Now().Before(dl) && got != want; time.Sleep(3 * time.Millisecond) {
+			got = read()
+		}
+		return got
+	}
+	func() {
+		gm := gometrics.NewRegistry()
+		rr, err := gmreg.NewGoMetricsMetricRegistry(gm, "", "svc", 5*time.Millisecond)
+		if err != nil {
+			t.Fatal(err)
+		}
+		rr.RegisterGauge("demo.limit", supplier)
+		read := func() float64 {
+			if g, ok := gm.Get("svc.demo.limit").(gometrics.GaugeFloat64); ok {
+				return g.Value()
+			}
+			return -1
+		}
+		rr.Start()
+		first := waitFor(read, 7)
+		rr.Stop()
+		val.Store(9.0)
+		rr.Start()
+		second := waitFor(read, 9)
+		rr.Stop()
+		restarts = append(restarts, restart{"gometrics", first, second})
+	}()
+	func() {
+		val.Store(7.0)
+		dd := &nopCloser{}
+		cl, err := statsd.NewWithWriter(dd, statsd.WithoutTelemetry(), statsd.WithMaxMessagesPerPayload(1), statsd.WithoutClientSideAggregation())
+		if err != nil {
+			t.Fatal(err)
+		}
+		defer cl.Close()
+		rr, err := ddreg.NewMetricRegistryWithClient(cl, "svc", 5*time.Millisecond)
+		if err != nil {
+			t.Fatal(err)
+		}
+		rr.RegisterGauge("demo.limit", supplier)
+		read := func() float64 { // the value of the latest gauge datagram
+			cl.Flush()
+			last := -1.0
+			for _, line := range strings.Split(dd.text(), "\n") {
+				if strings.HasPrefix(line, "svc.demo.limit:") && strings.Contains(line, "|g") {
+					v := strings.TrimPrefix(line, "svc.demo.limit:")
+					if i := strings.Index(v, "|"); i > 0 {
+						if f, err := strconv.ParseFloat(v[:i], 64); err == nil {
+							last = f
+						}
+					}
+				}
+			}
+			return last
+		}
+		rr.Start()
+		first := waitFor(read, 7)
+		rr.Stop()
+		val.Store(9.0)
+		rr.Start()
+		second := waitFor(read, 9)
+		rr.Stop()
+		restarts = append(restarts, restart{"datadog-client", first, second})
+	}()
 	wg.Wait()
 	sort.Slice(results, func(i, j int) bool {
 		if results[i].ctor != results[j].ctor {
@@ -157,6 +234,9 @@ func TestRegistryNaming(t *testing.T) {
 			continue
 		}
 		w.write(J{"ev": "Naming", "trace": k, "ctor": r.ctor, "prefix": r.prefix, "rtt": r.seen[ids[0]], "limit": r.seen[ids[1]]})
+	}
+	for k, r := range restarts {
+		w.write(J{"ev": "Restart", "trace": len(results) + k, "ctor": r.ctor, "first": r.first, "second": r.second, "want": J{"first": 7, "second": 9}})
 	}
 }
 
